@@ -14,7 +14,7 @@ use crate::{
     helpers::{RoleAssignment, query::QueryConfig},
     protocol::QueryId,
     query::runner::QueryResult,
-    sync::Mutex,
+    sync::{Arc, Mutex},
 };
 
 /// The status of query processing
@@ -48,7 +48,7 @@ impl From<&QueryState> for QueryStatus {
             QueryState::Preparing(_) => QueryStatus::Preparing,
             QueryState::AwaitingInputs(_, _) => QueryStatus::AwaitingInputs,
             QueryState::Running(_) => QueryStatus::Running,
-            QueryState::AwaitingCompletion => QueryStatus::AwaitingCompletion,
+            QueryState::AwaitingCompletion(_) => QueryStatus::AwaitingCompletion,
             QueryState::Completed(_) => QueryStatus::Completed,
         }
     }
@@ -80,9 +80,14 @@ pub enum QueryState {
     Preparing(QueryConfig),
     AwaitingInputs(QueryConfig, RoleAssignment),
     Running(RunningQuery),
-    AwaitingCompletion,
+    /// The token identifies the `complete` call that is waiting for this query, so that its
+    /// cleanup guard removes this entry only, never the entry of a later query.
+    AwaitingCompletion(CompletionToken),
     Completed(QueryResult),
 }
+
+/// Identity of one in-flight `complete` call (compared by pointer).
+pub type CompletionToken = Arc<()>;
 
 impl QueryState {
     pub fn transition(cur_state: &Self, new_state: Self) -> Result<Self, StateError> {
@@ -220,12 +225,35 @@ pub struct RemoveQuery<'a> {
 struct RemoveQueryInner<'a> {
     query_id: QueryId,
     queries: &'a RunningQueries,
+    /// If set, the entry is removed only while it is still `AwaitingCompletion` with this token.
+    completion: Option<CompletionToken>,
 }
 
 impl<'a> RemoveQuery<'a> {
     pub fn new(query_id: QueryId, queries: &'a RunningQueries) -> Self {
         Self {
-            inner: Some(RemoveQueryInner { query_id, queries }),
+            inner: Some(RemoveQueryInner {
+                query_id,
+                queries,
+                completion: None,
+            }),
+        }
+    }
+
+    /// Guard for a `complete` call: removes the query only if its entry is still the
+    /// `AwaitingCompletion` state created by that call. If the query was killed in the meantime
+    /// (and possibly a new one started), the table is left alone.
+    pub fn for_completion(
+        query_id: QueryId,
+        queries: &'a RunningQueries,
+        token: CompletionToken,
+    ) -> Self {
+        Self {
+            inner: Some(RemoveQueryInner {
+                query_id,
+                queries,
+                completion: Some(token),
+            }),
         }
     }
 
@@ -237,14 +265,21 @@ impl<'a> RemoveQuery<'a> {
 impl Drop for RemoveQuery<'_> {
     fn drop(&mut self) {
         if let Some(inner) = &self.inner {
-            if inner
-                .queries
-                .inner
-                .lock()
-                .unwrap()
-                .remove_entry(&inner.query_id)
-                .is_none()
-            {
+            let mut queries = inner.queries.inner.lock().unwrap();
+            if let Some(token) = &inner.completion {
+                let mine = matches!(
+                    queries.get(&inner.query_id),
+                    Some(QueryState::AwaitingCompletion(t)) if Arc::ptr_eq(t, token)
+                );
+                if !mine {
+                    tracing::warn!(
+                        "{q} query is no longer awaiting this completion, state left untouched",
+                        q = inner.query_id
+                    );
+                    return;
+                }
+            }
+            if queries.remove_entry(&inner.query_id).is_none() {
                 tracing::warn!(
                     "{q} query is not registered, but attempted to terminate",
                     q = inner.query_id
